@@ -601,6 +601,42 @@ theorem saveLoad_coherent (store : IGraph → IGraph) (hstore : ∀ g, store g =
   exact fromIGraph_form hg (some w)
     (fun v hv => by simp only [Option.some.injEq] at hv; subst hv; exact hg.wlen)
 
+/-- **`SpatialNetwork.Load` / `GeoNetwork.Load` of any coherent object** (rebuilt from
+the dense adjacency matrix of the stored graph, then the stored weights and the
+stored graph are attached): the loaded object is the saved one, whatever weights
+the constructor assigned first -/
+theorem loadViaAdjacency_coherent (net : Net) (h : Coherent net)
+    (gw : Option (Option (List Rat))) (hgw : ∀ x, gw = some (some x) → x.length = net.N) :
+    loadViaAdjacency (save net).2 gw = .ok (save net).1 := by
+  obtain ⟨d, N, g, ea, vw, w, rfl, hg⟩ := h.exists_form
+  have hgw' : ∀ x, gw = some (some x) → x.length = N := hgw
+  rw [save_form]
+  unfold loadViaAdjacency
+  simp only
+  have hadj : ofDenseMat N N (igAdj ⟨N, d, g, some w, ea⟩) = ofDenseMat N N (ind (rel d g)) := by
+    apply ofDenseMat_congr
+    intro i j _ _
+    exact igAdj_simple ⟨N, d, g, some w, ea⟩ hg.simple i j
+  rw [hadj, init_dense_none d N hg.size (rel d g)]
+  simp only [bind, Except.bind]
+  have h1 : ∃ w1, assignWeights (ofGraph d N (rel d g) (List.replicate N 1) none) gw
+      = .ok (ofGraph d N (rel d g) w1 none) := by
+    cases gw with
+    | none => exact ⟨_, rfl⟩
+    | some x =>
+      refine ⟨weightsOf N x, ?_⟩
+      show setWeights _ x = _
+      apply setWeights_ofGraph
+      intro y hy; subst hy; exact hgw' y rfl
+  obtain ⟨w1, h1⟩ := h1
+  rw [h1]
+  simp only [Option.map_some]
+  unfold assignWeights
+  simp only
+  rw [setWeights_ofGraph d N (rel d g) w1 none (some w) (fun x hx => by
+    simp only [Option.some.injEq] at hx; subst hx; exact hg.wlen)]
+  rfl
+
 /-- what is written always holds the *current* weights, whatever the graph object
 carried before (a file written earlier, the object the network was loaded from) -/
 theorem save_writes_current_weights (net : Net) :
